@@ -21,6 +21,7 @@ Next == UNCHANGED i
 Spec == Init /\ [][Next]_i
 
 Rng(s) == {s[k] : k \in DOMAIN s}
+ShapeIdx(k) == CASE k = "circ" -> 1 [] k = "perim" -> 2 [] k = "axes" -> 3
 DecO(j) ==
     [time |-> [n \in Node |-> j.time[n]],
      E    |-> {<<e[1], e[2]>> : e \in Rng(j.E)},
@@ -36,8 +37,17 @@ DecO(j) ==
                  IF \E r \in Rng(j.iou) : r[1] = e[1] /\ r[2] = e[2]
                  THEN LET r == CHOOSE r \in Rng(j.iou) : r[1] = e[1] /\ r[2] = e[2] IN <<r[3], r[4]>>
                  ELSE NoIoU],
+     ecust |-> [e \in Node \X Node |->
+                 IF \E r \in Rng(j.ecust) : r[1] = e[1] /\ r[2] = e[2]
+                 THEN (CHOOSE r \in Rng(j.ecust) : r[1] = e[1] /\ r[2] = e[2])[3] ELSE None],
      seg  |-> [q \in Pix |-> j.seg[q]],
      act  |-> Rng(j.act), reg |-> Rng(j.reg),
+     \* shape features: stored digest (shpv) and, through the from-scratch digest, freshness (shp)
+     shpv |-> [k \in ShapeKeys |-> [n \in Node |-> j.shpv[ShapeIdx(k)][n]]],
+     shp  |-> [k \in ShapeKeys |-> [n \in Node |->
+                 IF j.shpv[ShapeIdx(k)][n] = "" THEN NoShape
+                 ELSE IF j.shpv[ShapeIdx(k)][n] = j.shpr[ShapeIdx(k)][n]
+                      THEN {q \in Pix : j.seg[q] = n /\ FrameOf(q) = j.time[n]} ELSE {-1}]],
      ulen |-> j.ulen, rlen |-> j.rlen]
 
 Extend(t, c, new) == t \o [k \in 1..(Len(t) - c) |-> t[Len(t) - k]] \o <<new>>
@@ -70,9 +80,9 @@ Walk(steps, k, tl, cur) ==
 Dummy(k) == [j \in 1..k |-> <<>>]
 ModelOf(O) == [time |-> O.time, E |-> O.E, tid |-> O.tid, lid |-> O.lid, t2n |-> O.t2n, l2n |-> O.l2n,
                maxT |-> O.maxT, maxL |-> O.maxL, cust |-> O.cust, pos |-> O.pos, area |-> O.area,
-               iou |-> O.iou, seg |-> O.seg, act |-> O.act, reg |-> O.reg,
+               iou |-> O.iou, seg |-> O.seg, act |-> O.act, reg |-> O.reg, shp |-> O.shp, ecust |-> O.ecust,
                U |-> Dummy(O.ulen), R |-> Dummy(O.rlen)]
-SameObs(A, B) == FullEq(A, B) /\ A.maxT = B.maxT /\ A.maxL = B.maxL
+SameObs(A, B) == RefEq(A, B)
 RECURSIVE Lock(_, _, _)
 Lock(steps, k, m) ==
     IF k > Len(steps) THEN 0
